@@ -149,8 +149,8 @@ PROPS.update({
                   "compared with the model and with the pre/post images.",
                   {"props": ["MassVerif.Props.C12"],
                    "harnesses": [{"name": "walletfault", "pkg": "harness/wallet", "driver": "MassVerif/Driver/Wallet.lean",
-                                  "quick": {"n": 1, "len": 3, "focus": "C12"}, "thorough": {"n": 25, "len": 5, "focus": "C12"},
-                                  "search": {"n": 4, "len": 4, "focus": "C12"}, "timeout": 3000}]}),
+                                  "quick": {"n": 1, "len": 3, "focus": "C12"}, "thorough": {"n": 12, "len": 5, "focus": "C12"},
+                                  "search": {"n": 4, "len": 4, "focus": "C12"}, "timeout": 9000}]}),
     "C14": {
         "props": ["MassVerif.Props.C14"],
         "harnesses": [{"name": "walletconc", "pkg": "harness/walletconc", "race": True, "env": {"GORACE": "halt_on_error=1"},
@@ -210,7 +210,7 @@ PROPS.update({
     "C10": {
         "props": ["MassVerif.Props.C10", "MassVerif.Props.C07File"], "drivers_mod": ["MassVerif.Driver.Plot"],
         "harnesses": [{"name": "plotresume", "pkg": "harness/plot", "driver": "MassVerif/Driver/Plot.lean",
-                       "quick": {"n": 3, "focus": "C10"}, "thorough": {"n": 30, "focus": "C10"}, "search": {"n": 8, "focus": "C10"}, "timeout": 3000}],
+                       "quick": {"n": 3, "focus": "C10"}, "thorough": {"n": 20, "focus": "C10"}, "search": {"n": 8, "focus": "C10"}, "timeout": 9000}],
         "level_text": "Unbounded proof (Lean 4): the resumption invariant (every position below the stored checkpoint holds its final value) "
                       "is established by a fresh map, preserved by every completed window and by anything a crash may do at or above the "
                       "checkpoint (unsynced data present, absent or torn); from any such state, after any number of interruptions and with any "
@@ -464,19 +464,19 @@ PROPS["C03"]["harnesses"].append({"name": "walletconc", "pkg": "harness/walletco
                                   "quick": {"n": 6, "len": 10}, "thorough": {"n": 50, "len": 30}, "search": {"n": 30, "len": 20}, "timeout": 6000})
 PROPS["C03"]["harnesses"].append({"name": "walletfaultpass", "pkg": "harness/wallet", "driver": "MassVerif/Driver/Wallet.lean",
                                   "quick": {"n": 0, "len": 3, "focus": "C03F"}, "thorough": {"n": 6, "len": 5, "focus": "C03F"},
-                                  "search": {"n": 2, "len": 4, "focus": "C03F"}, "timeout": 3000})
+                                  "search": {"n": 2, "len": 4, "focus": "C03F"}, "timeout": 9000})
 # C05 too: a key handed out by an operation that hit a storage fault signs after a restart (fault enumeration over key issuance)
 PROPS["C05"]["harnesses"].append({"name": "walletfaultkeys", "pkg": "harness/wallet", "driver": "MassVerif/Driver/Wallet.lean",
                                   "quick": {"n": 0, "len": 3, "focus": "C05F"}, "thorough": {"n": 6, "len": 5, "focus": "C05F"},
-                                  "search": {"n": 2, "len": 4, "focus": "C05F"}, "timeout": 3000})
+                                  "search": {"n": 2, "len": 4, "focus": "C05F"}, "timeout": 9000})
 # C02 too: with a storage error in the way the reopened wallet still presents exactly what was acknowledged (public-passphrase changes)
 PROPS["C02"]["harnesses"].append({"name": "walletfaultpub", "pkg": "harness/wallet", "driver": "MassVerif/Driver/Wallet.lean",
                                   "quick": {"n": 0, "len": 3, "focus": "C02F"}, "thorough": {"n": 4, "len": 5, "focus": "C02F"},
-                                  "search": {"n": 2, "len": 4, "focus": "C02F"}, "timeout": 3000})
+                                  "search": {"n": 2, "len": 4, "focus": "C02F"}, "timeout": 9000})
 # C06 too: after a key request that failed on a storage fault the next request continues the ordinals without a gap
 PROPS["C06"]["harnesses"].append({"name": "walletfaultkeys", "pkg": "harness/wallet", "driver": "MassVerif/Driver/Wallet.lean",
                                   "quick": {"n": 0, "len": 3, "focus": "C06F"}, "thorough": {"n": 6, "len": 5, "focus": "C05F"},
-                                  "search": {"n": 2, "len": 4, "focus": "C05F"}, "timeout": 3000})
+                                  "search": {"n": 2, "len": 4, "focus": "C05F"}, "timeout": 9000})
 # collector side of C17: what a LocalCollector reports for a qualities task
 PROPS["C17"]["props"].append("MassVerif.Props.C17Collector")
 PROPS["C17"]["props"].append("MassVerif.Props.C17EndToEnd")    # codec + framing + any transport chunking, composed
